@@ -24,8 +24,18 @@ func interpMain(seed uint64, n int, outDir, gen string) error {
 	seen := map[string]bool{}
 	distinct := 0
 	var product []string
-	if gen == "c04" {
+	switch gen {
+	case "c04":
 		product = c04Product()
+	case "c09":
+		product = c09Product()
+	case "c06":
+		product = c06Product()
+		if n > len(product) {
+			n = len(product)
+		}
+	case "c05":
+		product = c05Product(rnd.Fork("c05"), n)
 	}
 	c07 := &c07Gen{r: rnd.Fork("c07")}
 	for count < n {
